@@ -407,6 +407,7 @@ class World:
         import tenpy
         import tenpy.simulations.simulation as sim_mod
         import tenpy.tools.hdf5_io as h5mod
+        import tenpy.tools.math as math_mod
         import tenpy.version as ver_mod
         self.segment += 1
         fs = self.fs
@@ -437,6 +438,10 @@ class World:
                 self.sigint_at = set(fault['at'])
                 self.kill_after_sigint = (fault['kill_after_ops'], fault.get('tear'))
         self.clock = SimClock(clock_seed, self.cfg['clock'], on_read=self._deliver)
+        # hidden randomness owned by the simulated process: numpy's global generator and ARPACK's internal
+        # start-vector generator (Fortran state that survives across calls within a real process)
+        np.random.seed(clock_seed % (2**32))
+        arpack = _ArpackSeam(clock_seed)
         out = {'outcome': None, 'results': None, 'error': None, 'ops_in_segment': 0}
         real_save = h5mod.save
         saved_git = ver_mod._get_git_revision
@@ -445,6 +450,8 @@ class World:
                 contextlib.redirect_stderr(_DEVNULL), contextlib.redirect_stdout(_DEVNULL):
             h5mod.save = self._wrapped_save(real_save)
             ver_mod._get_git_revision = lambda cwd=None: 'stubbed'
+            saved_scipy = math_mod.scipy
+            math_mod.scipy = arpack
             try:
                 kwargs = {'setup_logging': False}
                 if start[0] == 'fresh':
@@ -475,6 +482,7 @@ class World:
             finally:
                 h5mod.save = real_save
                 ver_mod._get_git_revision = saved_git
+                math_mod.scipy = saved_scipy
                 signal.signal(signal.SIGINT, old_handler)
         out['ops_in_segment'] = fs.n_mut - base
         out['clock_reads'] = self.clock.reads
@@ -484,6 +492,53 @@ class World:
                 self.probe('clock_jump_' + k, v)
         fs.frozen = False
         return out
+
+
+class _ArpackSeam:
+    """Stand-in for the name `scipy` inside tenpy/tools/math.py: eigs / eigsh get an explicit, seeded start
+    vector when the caller gave none (ARPACK would otherwise draw it from its process-wide Fortran generator,
+    which makes results depend on what ran earlier in the same real process)."""
+
+    def __init__(self, seed):
+        import scipy
+        import scipy.sparse.linalg
+        self._scipy = scipy
+        self._rng = np.random.RandomState(seed % (2**32))
+        seam = self
+
+        class _Linalg:
+            def __getattr__(self, name):
+                return getattr(scipy.sparse.linalg, name)
+
+            @staticmethod
+            def eigs(A, k=6, *args, **kwargs):
+                if kwargs.get('v0') is None and len(args) < 4:
+                    kwargs['v0'] = seam._v0(A)
+                return scipy.sparse.linalg.eigs(A, k, *args, **kwargs)
+
+            @staticmethod
+            def eigsh(A, k=6, *args, **kwargs):
+                if kwargs.get('v0') is None and len(args) < 4:
+                    kwargs['v0'] = seam._v0(A)
+                return scipy.sparse.linalg.eigsh(A, k, *args, **kwargs)
+
+        class _Sparse:
+            linalg = _Linalg()
+
+            def __getattr__(self, name):
+                return getattr(scipy.sparse, name)
+
+        self.sparse = _Sparse()
+
+    def _v0(self, A):
+        n = A.shape[0]
+        v = self._rng.standard_normal(n)
+        if np.issubdtype(getattr(A, 'dtype', np.dtype(float)), np.complexfloating):
+            v = v + 1j * self._rng.standard_normal(n)
+        return v
+
+    def __getattr__(self, name):
+        return getattr(self._scipy, name)
 
 
 def _deepcopy(x):
